@@ -82,7 +82,8 @@ class Task:
 
 
 class Scheduler:
-    def __init__(self, chooser, horizon=5000, timeout=30.0):
+    def __init__(self, chooser, horizon=5000, timeout=30.0, exit_points=True):
+        self.exit_points = exit_points
         self.chooser = chooser
         self.tasks = []
         self.current = None
@@ -108,6 +109,9 @@ class Scheduler:
         try:
             if not self.aborting:
                 t.fn()
+                if t.id != 0 and self.exit_points:
+                    # thread termination is visible (join observes it): others may run first
+                    self.point("thread.exit")
         except SchedulerAbort:
             pass
         except BaseException as e:  # the task body is expected to catch its own exceptions
